@@ -17,7 +17,7 @@ CLAIMED = ["C%02d" % i for i in range(1, 21)]
 
 MANIFEST_TEXT = {
     "C01": dict(
-        level="Round trips dec(enc(b))==b and enc(dec(b))==b per cipher type over all blocks and either all keys (D queries) or all expanded-key states, a superset of all keys (W queries: round leaf uninterpreted, or S-box / linear layer as uninterpreted inverse pairs whose inverse lemmas are separate queries): DES, TDES x4, SM4, Camellia, ARIA, Serpent (both unroll variants), Twofish, CAST-256, Blowfish BE/LE, IDEA, RC2, XTEA, Magma, BelT, Kuznyechik (sse2, big_soft, compact_soft), RC5 (14 instantiations + 128 rounds), Speck x10, Threefish-256/512, GIFT; AES through conformance of both directions to FIPS-197 (C02) plus oracle inverse lemmas.  BelT wide block: whole function for 32..=48 octets and, for 100 / 2048 / 4096 / 2033 octets, an inductive step on the real round body with an arbitrary round counter.  Not decided: CAST5 round trip, Threefish-1024 rounds, NEON (DESIGN 10.5).",
+        level="Round trips dec(enc(b))==b and enc(dec(b))==b per cipher type over all blocks and either all keys (D queries) or all expanded-key states, a superset of all keys (W queries: round leaf uninterpreted, or S-box / linear layer as uninterpreted inverse pairs whose inverse lemmas are separate queries): DES, TDES x4, SM4, Camellia, ARIA, Serpent (both unroll variants), Twofish, CAST-256, Blowfish BE/LE, IDEA, RC2, XTEA, Magma, BelT, Kuznyechik (sse2, big_soft, compact_soft), RC5 (14 instantiations + 128 rounds), Speck x10, Threefish-256/512, GIFT; AES through conformance of both directions to FIPS-197 (C02) plus oracle inverse lemmas.  BelT wide block: whole function for 32..=48 octets and, for 100 / 2048 / 4096 / 2033 octets, an inductive step on the real round body with an arbitrary round counter.  CAST5: round trips on arbitrary 12- and 16-round states for any round functions (round-function macros given a function boundary in the shadow copy, DESIGN 10.2 item 17).  Not decided: Threefish-1024 rounds, NEON (DESIGN 10.5).",
         note=BASE + " W queries additionally rely on: any function as Feistel leaf (no lemma needed) or the leaf-inverse lemma proved as its own query.",
         technique=TECH),
     "C02": dict(
@@ -47,7 +47,7 @@ MANIFEST_TEXT = {
         level="Serpent (key length symbolic 16..=32, both unroll variants), Twofish (16/24/32) and CAST-256 (five key sizes) == their specifications for all keys and blocks: leaf lemmas (bitsliced S-box circuits, linear transform, q-boxes/MDS/RS/h/g, quads/octave) + wiring with the leaves uninterpreted.",
         note=BASE, technique=TECH),
     "C09": dict(
-        level="Blowfish / BlowfishLE: round function leaf, data path and round trips on arbitrary P/S (quick), key expansion for key lengths 0..=57 under a lockstep stub on the inner encrypt (thorough).  IDEA: multiplication and inverse leaves, key expansion, data path, all keys (quick).  XTEA: direct conformance, all keys and blocks (quick).  RC2: data path on an arbitrary round-key state, constructor wiring, key expansion for every effective length T1 of stated ranges with fixed keys (the effective-length mask is data independent).  CAST5: constructor wiring (padding, 12/16-round flag).  NOT decided by a finished query: RC2 key expansion for symbolic keys, CAST5 rounds and half key schedule (DESIGN 10.5); their oracles are validated natively against all repository vectors.",
+        level="Blowfish / BlowfishLE: round function leaf, data path and round trips on arbitrary P/S (quick), key expansion for key lengths 0..=57 under a lockstep stub on the inner encrypt (thorough).  IDEA: multiplication and inverse leaves, key expansion, data path, all keys (quick).  XTEA: direct conformance, all keys and blocks (quick).  RC2: data path on an arbitrary round-key state, constructor wiring, key expansion for every effective length T1 of stated ranges with fixed keys (the effective-length mask is data independent).  CAST5, compositionally (DESIGN 10.2 item 17: the shadow copy gives the round-function macros and the S-box look-ups a function boundary, their text unchanged): tables S1..S8, the three round-function bodies for all arguments, both block functions on arbitrary 12- and 16-round states, the half key schedule for all 2^128 running values, constructor wiring (padding, 12/16-round flag).  NOT decided by a finished query: RC2 key expansion for symbolic keys (DESIGN 10.5); its oracle is validated natively against all repository vectors.",
         note=BASE + " Blowfish's 521 chained self-modifying encryptions are decided under the call-indexed abstraction (DESIGN 2.3).",
         technique=TECH),
     "C10": dict(
